@@ -321,7 +321,7 @@ def run(run):
     wr = []
     for which in ("generate_rankings", "markov_dataset"):
         for complete in (False, True):
-            for n, m in ([(1, 1), (1, 2), (2, 1), (2, 2), (3, 1), (3, 2)] + ([(3, 3), (4, 1), (4, 2)] if run.thorough else [])):
+            for n, m in ([(1, 1), (1, 2), (2, 1), (2, 2), (3, 1), (3, 2)] + ([(3, 3), (4, 1), (4, 2)] if run.thorough else [(4, 1)])):
                 wr.append((n, m, complete, which))
     for which in ("uniform_permutations", "uniform_dataset"):
         for n, m in [(1, 1), (2, 2), (3, 2), (4, 1)]:
